@@ -239,7 +239,7 @@ func genC14(seed, index uint64, tier string) *Plan {
 	switch shape {
 	case 0: // direct install of the schema'd version
 		vals, v, rule, se := draw()
-		op := OpSpec{Op: "install", Chart: 1, Values: vals, SkipSchema: g.Chance(0.2), SkipCRDs: g.Chance(0.3), NoHooks: g.Chance(0.2)}
+		op := OpSpec{Op: "install", Chart: 1, Values: vals, SkipSchema: g.Chance(0.2), SkipCRDs: g.Chance(0.3), NoHooks: g.Chance(0.2), NoOpenAPI: g.Chance(0.3)}
 		op.Description = fmt.Sprintf("c14:%s:%v:%s", v, se, rule)
 		p.Steps = append(p.Steps, Step{Op: &op})
 	case 1: // template-shaped install
@@ -250,7 +250,7 @@ func genC14(seed, index uint64, tier string) *Plan {
 	case 2: // install clean, upgrade with violating values
 		p.Steps = append(p.Steps, Step{Op: &OpSpec{Op: "install", Chart: g.N(2)}})
 		vals, v, rule, se := draw()
-		op := OpSpec{Op: "upgrade", Chart: 1, Values: vals, SkipSchema: g.Chance(0.2), ResetValues: g.Chance(0.3), SkipCRDs: g.Chance(0.3)}
+		op := OpSpec{Op: "upgrade", Chart: 1, Values: vals, SkipSchema: g.Chance(0.2), ResetValues: g.Chance(0.3), SkipCRDs: g.Chance(0.3), NoOpenAPI: g.Chance(0.3)}
 		if g.Chance(0.2) {
 			op.DryRun = true
 		}
